@@ -84,3 +84,66 @@ def hist_cases(cases):
 
 def same_outcome(a, b, keys=('classerr', 'cls', 'err', 'warns', 'tree')):
     return all(a.get(k) == b.get(k) for k in keys)
+
+
+def schema_flags(cases):
+    """model's guards per {'ro','msg'} case: dict(wf, msg, schema, payload, timing) or None"""
+    lines = []
+    for c in cases:
+        ro_e = impl.parse_doc(c['ro'])
+        msg_e = impl.parse_doc(c['msg'])
+        lines.append('schema %s %s %s' % (oracle_prefix([ro_e, msg_e]), X.elem_line(ro_e), X.elem_line(msg_e)))
+    out = []
+    for l in run_model(lines):
+        if l.startswith('noclass'):
+            out.append(None)
+        else:
+            out.append({kv.split('=')[0]: kv.split('=')[1] == '1' for kv in l.split(' ')})
+    return out
+
+
+def classify_cases(texts):
+    """model classification of parsed documents: ('ok', cls, completed) | ('err', exn)"""
+    lines = ['classify ' + X.elem_line(impl.parse_doc(t)) for t in texts]
+    res = []
+    for l in run_model(lines):
+        t = l.split(' ')
+        res.append(('ok', t[1], t[2] == '1') if t[0] == 'ok' else ('err', t[1]))
+    return res
+
+
+def coll_cases(cases):
+    """for each {'docs': [...], 'inc': bool, 'strict': bool}: model outcome
+    {'err0': exn} | {'err':, 'warns':, 'tree':}"""
+    lines = []
+    for c in cases:
+        es = [impl.parse_doc(t) for t in c['docs']]
+        lines.append('coll %s %d %d %d %s' % (oracle_prefix(es), 1 if c['inc'] else 0, 1 if c['strict'] else 0,
+                                               len(es), ' '.join(X.elem_line(e) for e in es)))
+    res = []
+    for l in run_model(lines):
+        t = l.split(' ')
+        if t[0] == 'err':
+            res.append({'err0': t[1]})
+        else:
+            err = t[1]
+            n = int(t[2][1:])
+            res.append({'err': None if err == 'none' else err, 'warns': t[3:3 + n],
+                        'tree': X.Reader(t, 3 + n).tree()})
+    return res
+
+
+def readers_cases(cases):
+    """for each {'docs', 'inc'}: ('err', exn) | ('ok', ro_mid, [(mid, cls)...])"""
+    lines = []
+    for c in cases:
+        es = [impl.parse_doc(t) for t in c['docs']]
+        lines.append('readers %d %d %s' % (1 if c['inc'] else 0, len(es), ' '.join(X.elem_line(e) for e in es)))
+    res = []
+    for l in run_model(lines):
+        t = l.split(' ')
+        if t[0] == 'err':
+            res.append(('err', t[1]))
+        else:
+            res.append(('ok', int(t[1]), [(int(x.split(':')[0]), x.split(':')[1]) for x in t[2:]]))
+    return res
